@@ -617,3 +617,33 @@ Proof.
   - rewrite (commit_is_run _ _ _ _ Hwf Ha). reflexivity.
   - rewrite (update_is_run _ _ _ _ _ Hwf Ha). reflexivity.
 Qed.
+
+(* ------------------------------------------------------------------ time and edits *)
+
+Lemma exec_clock_irrelevant : forall ops reg root,
+  exec reg root ops = exec reg root (filter (fun o => negb (is_clock o)) ops).
+Proof.
+  induction ops as [|o r IH]; intros reg root; [reflexivity|].
+  destruct o; simpl; rewrite <- ?IH; reflexivity.
+Qed.
+
+Lemma regs_of_clock : forall ops, regs_of (filter (fun o => negb (is_clock o)) ops) = regs_of ops.
+Proof.
+  induction ops as [|o r IH]; [reflexivity|]. destruct o; simpl; rewrite ?IH; reflexivity.
+Qed.
+
+(* after an edit of the tree (children of the node at position q replaced, see Refs.replace_at) commit()/update()
+   of any node of the edited tree are again characterised by the visit lists of the edited tree *)
+Lemma commit_after_edit : forall reg t q old new p n, wf_tree t -> addr t q = Some old -> wf_tree new ->
+  t_cls new = t_cls old -> t_key new = t_key old -> addr (replace_at t q new) p = Some n ->
+  commit reg (replace_at t q new) p = Some (run reg KCommit (commit_visits (replace_at t q new) p n)) /\
+  (forall rc, update reg (replace_at t q new) p rc = Some (run reg KUpdate (update_visits (replace_at t q new) p n rc))) /\
+  (forall v, In v (commit_visits (replace_at t q new) p n) ->
+     path_leads (replace_at t q new) (v_store v) (v_obj v) (v_rel v)).
+Proof.
+  intros reg t q old new p n Hwf Ha Hn Hc Hk Hp.
+  destruct (wf_replace q t old new Hwf Ha Hn Hc Hk) as [Hwf' _].
+  split; [apply commit_is_run; assumption|]. split.
+  - intros rc. apply update_is_run; assumption.
+  - intros v Hv. eapply commit_paths_lead; eauto.
+Qed.
